@@ -4,9 +4,9 @@ namespace Pedal.Timeout
 -- the grader's steps: E2's two writes land in E2's own buffer because `sys.stdout` is it
 set_option maxHeartbeats 4000000 in
 theorem invd_stepG (p : Prog) (s : St) (h : Inv s) (d : InvData p s) : InvData p (stepG fixed s) := by
-  obtain ⟨hl, hstk, hpend, -, -, -, -, -, -, -, -, hctx, -, -, -, -, -, -, -⟩ := h
+  obtain ⟨hl, hstk, hpend, -, -, -, -, -, -, -, -, hctx, -, -, -, -, -, -, -, -⟩ := h
   obtain ⟨hbuf2, hout2v, hreal, haux⟩ := d
-  rcases s with ⟨gpc, tpc, claim, pending, tExit, timedOut, patches, stdouts, sysStdout, buf1, buf2, real, raw, out1, out2, ctxs, id1, id2, nextId, exc, feedback, excAtReturn, depthAtReturn, excBeforeNext, e2Escaped⟩
+  rcases s with ⟨gpc, tpc, claim, pending, tExit, timedOut, patches, stdouts, sysStdout, buf1, buf2, real, raw, out1, out2, ctxs, id1, id2, nextId, exc, feedback, excAtReturn, depthAtReturn, excBeforeNext, e2Escaped, e1Escaped⟩
   simp only at hl hstk hpend hctx hbuf2 hout2v hreal haux
   cases gpc <;> rcases claim with _ | (_ | _) <;> cases tpc <;>
     simp [legal, GPc.rank, TPc.rank] at hl <;>
@@ -22,9 +22,9 @@ theorem invd_stepG (p : Prog) (s : St) (h : Inv s) (d : InvData p s) : InvData p
 set_option maxHeartbeats 4000000 in
 theorem invd_stepT_other (p : Prog) (s : St) (c : TChoice) (h : Inv s) (d : InvData p s) (hrun : s.tpc ≠ .run) :
     InvData p (stepT fixed p s c) := by
-  obtain ⟨hl, hstk, hpend, -, -, -, -, -, -, -, -, hctx, -, -, -, -, -, -, -⟩ := h
+  obtain ⟨hl, hstk, hpend, -, -, -, -, -, -, -, -, hctx, -, -, -, -, -, -, -, -⟩ := h
   obtain ⟨hbuf2, hout2v, hreal, haux⟩ := d
-  rcases s with ⟨gpc, tpc, claim, pending, tExit, timedOut, patches, stdouts, sysStdout, buf1, buf2, real, raw, out1, out2, ctxs, id1, id2, nextId, exc, feedback, excAtReturn, depthAtReturn, excBeforeNext, e2Escaped⟩
+  rcases s with ⟨gpc, tpc, claim, pending, tExit, timedOut, patches, stdouts, sysStdout, buf1, buf2, real, raw, out1, out2, ctxs, id1, id2, nextId, exc, feedback, excAtReturn, depthAtReturn, excBeforeNext, e2Escaped, e1Escaped⟩
   simp only at hl hstk hpend hctx hbuf2 hout2v hreal haux hrun
   cases tpc <;> rcases claim with _ | (_ | _) <;> cases gpc <;>
     simp [legal, GPc.rank, TPc.rank] at hl hrun <;>
@@ -42,9 +42,9 @@ theorem invd_stepT_other (p : Prog) (s : St) (c : TChoice) (h : Inv s) (d : InvD
 set_option maxHeartbeats 4000000 in
 theorem invd_stepT_run (p : Prog) (hp : p.swallows = true → p.prints = false) (s : St) (c : TChoice)
     (h : Inv s) (d : InvData p s) (hrun : s.tpc = .run) : InvData p (stepT fixed p s c) := by
-  obtain ⟨hl, hstk, hpend, -, -, -, -, -, -, -, -, hctx, -, -, -, -, -, -, -⟩ := h
+  obtain ⟨hl, hstk, hpend, -, -, -, -, -, -, -, -, hctx, -, -, -, -, -, -, -, -⟩ := h
   obtain ⟨hbuf2, hout2v, hreal, haux⟩ := d
-  rcases s with ⟨gpc, tpc, claim, pending, tExit, timedOut, patches, stdouts, sysStdout, buf1, buf2, real, raw, out1, out2, ctxs, id1, id2, nextId, exc, feedback, excAtReturn, depthAtReturn, excBeforeNext, e2Escaped⟩
+  rcases s with ⟨gpc, tpc, claim, pending, tExit, timedOut, patches, stdouts, sysStdout, buf1, buf2, real, raw, out1, out2, ctxs, id1, id2, nextId, exc, feedback, excAtReturn, depthAtReturn, excBeforeNext, e2Escaped, e1Escaped⟩
   rcases p with ⟨prints, swallows, blocked⟩
   simp only at hl hstk hpend hctx hbuf2 hout2v hreal haux hrun hp
   subst hrun
